@@ -378,7 +378,7 @@ def native_build(o, unit, mode, extra_defs=()):
     for k, v in list(o.defines.items()) + list(extra_defs):
         defs.append('-D%s=%s' % (k, v) if v is not None else '-D%s' % k)
     hp = os.path.join(VERIF, o.harness)
-    common = ['-O1', '-w', '-I', ENGINE, '-I', os.path.dirname(hp), '-I', unit.dir, '-fno-strict-aliasing'] + defs
+    common = ['-O0' if mode == 'trans' else '-O1', '-w', '-I', ENGINE, '-I', os.path.dirname(hp), '-I', unit.dir, '-fno-strict-aliasing'] + defs
     if mode == 'real_san':
         # real functions + harness under UBSan/ASan: a C13 counterexample is confirmed by the sanitizer aborting the run
         san = ['-fsanitize=undefined,address', '-fno-sanitize-recover=all', '-fno-omit-frame-pointer']
